@@ -33,6 +33,24 @@ add("C05", "x_print", MC, "bounded exhaustive enumeration of trees x print confi
 add("C09", "x_print", MC, "bounded exhaustive enumeration of trees x every caller-buffer length 0..len+16 x both formats with the buffer flush against a guard page",
     "cJSON_PrintPreallocated on a buffer of exactly n bytes whose end touches a PROT_NONE page, canary before it, pre-filled with non-zero bytes: no fault, true only with the exact zero-terminated text, true for n >= len+1+5, monotone in n, negative length / NULL refused; raw items included.", PRINT_NOTE, "DESIGN.md §3 C09")
 
+HIST_NOTE = ("Trusted: the harness' list/map model (Appendix B of DESIGN.md), gcc ASan/UBSan, the allocation ledger, read-only pages for borrowed memory. Bounded by depth, <= 7 nodes / 3 roots per state and the stated operation alphabet; "
+             "histories respect the documented ownership rules (no attach of an attached item, no edit of a tree while a reference borrows from it).")
+add("C06", "x_hist", MC, "explicit-state breadth-first search over the real edit API (states de-duplicated by canonical tree text), every transition compared with a list/map model",
+    "All histories up to depth 3 (thorough 4) from 5 start states over ~25 API functions with all small arguments (every live node/root, indices -1..size+1, keys a/A/b/B incl. keys aliasing the item's own key, self-insertion, NULL arguments); after every call: return value, full structural walk "
+    "(next/prev/child->prev invariants), node-by-node model comparison, size/index/key/iteration queries.", HIST_NOTE, "DESIGN.md §3 C06")
+add("C07", "x_hist", MC, "explicit-state BFS over the real API with an allocation-ledger monitor evaluated in every state, under the default and a tagging custom allocator",
+    "Same exploration as C06 run under the default allocator and under cJSON_InitHooks with a tagging allocator: at every state live blocks == blocks owned by the live trees, every owned block live, no double/foreign/interior free, borrowed memory in read-only pages, "
+    "print calls with allocation request 1..3 refused release everything exactly once, and deleting all roots returns the ledger to its initial balance.", HIST_NOTE, "DESIGN.md §3 C07")
+add("C11", "x_hist", MC, "explicit-state BFS with cJSON_Duplicate in the alphabet and all later edits on source and copy; plus depth/cycle family on a large stack",
+    "Duplicate(node, 0/1) of every live node in every reachable state (incl. reference nodes, constant keys, borrowed chains): copy equals source under the model, prints identically, compares equal, no sibling links, reference bit cleared, owned blocks disjoint, source unchanged; "
+    "all later edit/delete histories stay consistent with model and ledger. Chains of depth 10..6*CJSON_CIRCULAR_LIMIT, 2-/3-/self-cycles through child, and flat arrays wider than the limit.", HIST_NOTE, "DESIGN.md §3 C11")
+add("C14", "x_hist", MC, "explicit-state BFS over the real API repeated under 8 hook configurations with link-time interposition of malloc/realloc/free",
+    "Configurations {default, both custom (tagged blocks), malloc only, free only, custom then NULL, custom then NULL members, custom then malloc only, custom then free only} x all histories to depth 2 (3): with both hooks custom no libc allocator call from library context and no realloc; "
+    "every released block was handed out by the matching allocator (tag check), one-sided configurations route every request through the installed function, reset restores the default; print and Utils results are released with cJSON_free.", HIST_NOTE, "DESIGN.md §3 C14")
+add("C19", "x_hist", MC, "explicit-state BFS alternating sorting calls and edits from every object up to 4 (5) members over 6 keys",
+    "Start states: all objects with <= 4 (thorough 5) members over keys {a,A,b,B,c,\"\"} with duplicates, plus nested/paired objects; alternating layers of sorting calls (SortObject cs/ci, patch test, patch generation, merge-patch generation) and the full edit alphabet: "
+    "sorted permutation of the same nodes, idempotent, structural walk, and list-model agreement of every later append/insert/detach/replace/print/delete.", HIST_NOTE, "DESIGN.md §3 C19")
+
 NA = [dict(property_id=p, reason="check not built yet in this revision (planned: see DESIGN.md §3); nothing is claimed for it") for p in
       ["C04","C05","C06","C07","C08","C09","C11","C12","C13","C14","C15","C16","C17","C18","C19","C20"] if p not in C]
 ENGINES = [
